@@ -383,9 +383,11 @@ package keeper
 // ---------------------------------------------------------------------------------------------
 // Request contexts and their batch queues (C08, C13)
 
-//@ family newBatch   key types.GetNewRequestBatchKey value unit
+// a queue entry stores the id of its request context (the end blocker reads the id from the value)
+//@ define BV(i) = with(zero(get(newBatch, i, 0)), "Value", i)
+//@ family newBatch   key types.GetNewRequestBatchKey value gogotypes.BytesValue prefix types.GetNewRequestBatchSubspace
 //@ family newBatchH  key types.GetNewRequestBatchHeightKey value int64 enc proto
-//@ family expBatch   key types.GetExpiredRequestBatchKey value unit
+//@ family expBatch   key types.GetExpiredRequestBatchKey value gogotypes.BytesValue prefix types.GetExpiredRequestBatchSubspace
 //@ family expBatchH  key types.GetExpiredRequestBatchHeightKey value int64 enc proto
 
 //@ define CTX(i) = get(contexts, i)
@@ -413,7 +415,7 @@ package keeper
 //@   ensures running:    err == nil ==> CTX(requestContextID) == with(old(CTX(requestContextID)), "State", types.RUNNING)
 //@   ensures scheduled_once: err == nil ==> ite(old(has(expBatchH, requestContextID)) || old(has(newBatchH, requestContextID)),
 //@                             newBatch == old(newBatch) && newBatchH == old(newBatchH),
-//@                             newBatch == set(old(newBatch), requestContextID, height, true) && has(newBatchH, requestContextID) && get(newBatchH, requestContextID) == height)
+//@                             newBatch == set(old(newBatch), requestContextID, height, BV(requestContextID)) && has(newBatchH, requestContextID) && get(newBatchH, requestContextID) == height)
 //@   ensures queue_inv:  old(newQInv) ==> newQInv
 //@   ensures rejected:   err != nil ==> contexts == old(contexts) && newBatch == old(newBatch) && newBatchH == old(newBatchH)
 //@ end
@@ -571,21 +573,30 @@ package keeper
 // queue iterations of the end blocker (helpers with callbacks; inlined into EndBlocker together with the closures)
 //@ define depNonneg = forall s:Str :: forall p:Bytes :: forall d:Str :: has(bindings, s, p) ==> amt(BIND(s, p).Deposit, d) >= 0
 //@ define endBlockInv = has(prm) && types.paramsOK(get(prm)) && pricingsWF && !isnil(SLASHFRAC) && raw(SLASHFRAC) >= 0 && raw(SLASHFRAC) <= DEC_ONE && ufb("denom_valid", BASE) && depNonneg
+// every entry of a batch queue stores the id of its own request context
+//@ define queueVals = (forall i:Bytes :: forall h:Int :: has(newBatch, i, h) ==> get(newBatch, i, h).Value == i)
+//@               && (forall i:Bytes :: forall h:Int :: has(expBatch, i, h) ==> get(expBatch, i, h).Value == i)
 //@ func Keeper.IterateExpiredRequestBatch
 //@   inline
-//@   invariant #1 inv: endBlockInv
+//@   invariant #1 inv: endBlockInv && queueVals
 //@ end
+// the walk over the new-batch queue of this height: the entries still to come are untouched, the ones handled are gone,
+// nothing is added to this height meanwhile (queue hygiene, C08/C13)
 //@ func Keeper.IterateNewRequestBatch
 //@   inline
-//@   invariant #1 inv: endBlockInv
+//@   invariant #1 inv: endBlockInv && queueVals
+//@   invariant #1 pos:  0 <= it_idx && it_idx <= it_n
+//@   invariant #1 todo: forall j:Int :: it_idx <= j && j < it_n ==> has(newBatch, it_seq[j].k0, requestBatchHeight)
+//@   invariant #1 done: forall j:Int :: 0 <= j && j < it_idx ==> !has(newBatch, it_seq[j].k0, requestBatchHeight)
+//@   invariant #1 none_added: forall i:Bytes :: !has(it_snap, i, requestBatchHeight) ==> !has(newBatch, i, requestBatchHeight)
 //@ end
 //@ func Keeper.IterateActiveRequests
 //@   inline
-//@   invariant #1 inv: endBlockInv
+//@   invariant #1 inv: endBlockInv && queueVals
 //@ end
 //@ func Keeper.CleanBatch
 //@   inline
-//@   invariant #1 inv: endBlockInv
+//@   invariant #1 inv: endBlockInv && queueVals
 //@ end
 // Opening a batch (C08): one request per selected provider, and the context record starts the new batch from a clean
 // slate - counter advanced by one, batch running, no response counted yet, as many requests as providers, the context's
